@@ -873,6 +873,11 @@ impl Inner {
         let request =
             ClientRequest::new(authentication.client_key, protocol_version, request_parts);
 
+        // From here until registration a disconnect request for this connection is remembered.
+        let _admission = self
+            .clients
+            .begin_admission(request.endpoint_id(), request.connection_id());
+
         // Authorize the request against the configured `AccessControl`.
         let guard = authentication
             .authorize_with(&request, &self.access, &mut io)
